@@ -11,6 +11,8 @@ package main
 //                          onResponseTimeout call upstreamRequest.resetStream() (go/ast)
 //   proxy_retry_clears_reuse / proxy_setupretry_clears_reuse : atomic.StoreUint32(&s.reuseBuffer, 0) in doRetry / in the
 //                          `if !endStream` block of setupRetry (go/ast)
+//   proxy_global_lost_cas_stops : the global timer closure of onUpstreamRequestSent has `if !CompareAndSwapUint32(..) { return }`
+//                          with nothing else in the condition (go/ast)
 //   proxy_hijack_clears_body : sendHijackReply assigns downstreamRespDataBuf = nil at top level (go/ast)
 //   proxy_put_resets_cursor : streamfilter.PutStreamFilterChain (or a chain method it calls) assigns 0 to both cursors (go/ast)
 //   proxy_default_global_ms : types.GlobalTimeout (evaluated)
@@ -291,6 +293,40 @@ func genProxyTokens(repo string) (string, error) {
 	fmt.Fprintf(&b, "Definition proxy_retry_clears_reuse : bool := %v.\n", rcr)
 	fmt.Fprintf(&b, "Definition proxy_setupretry_clears_reuse : bool := %v.\n", scr)
 
+	// --- the global timer callback: does a lost CAS on upstreamResponseReceived always end it?  (`if !CAS(..) { return }`)
+	glc, glcSeen := false, 0
+	if us := FindFunc(f, "downStream", "onUpstreamRequestSent"); us != nil {
+		isCAS := func(e ast.Expr) bool {
+			u, isU := e.(*ast.UnaryExpr)
+			if !isU || u.Op != token.NOT {
+				return false
+			}
+			ce, isCall := u.X.(*ast.CallExpr)
+			if !isCall {
+				return false
+			}
+			se, isSel := ce.Fun.(*ast.SelectorExpr)
+			return isSel && se.Sel.Name == "CompareAndSwapUint32"
+		}
+		ast.Inspect(us.Body, func(n ast.Node) bool {
+			is, isIf := n.(*ast.IfStmt)
+			if !isIf {
+				return true
+			}
+			if isCAS(is.Cond) {
+				glcSeen++
+				glc = true
+			} else if be, isBin := is.Cond.(*ast.BinaryExpr); isBin && (isCAS(be.X) || isCAS(be.Y)) {
+				glcSeen++
+			}
+			return true
+		})
+	}
+	if glcSeen != 1 {
+		ok = false
+	}
+	fmt.Fprintf(&b, "Definition proxy_global_lost_cas_stops : bool := %v.\n", glc)
+
 	// --- retry budget default and reset() shape
 	_, rf, err := ParseGoFile(repo, "pkg/proxy/retrystate.go")
 	if err != nil {
@@ -361,7 +397,7 @@ func genProxyTokens(repo string) (string, error) {
 		}
 	}
 	fmt.Fprintf(&b, "Definition proxy_default_global_ms : Z := %d.\n", int64(types.GlobalTimeout/time.Millisecond))
-	b.WriteString("Definition proxy_src : srcp :=\n  {| loop_bound := proxy_loop_bound; min_budget := proxy_min_budget; reset_guarded := proxy_reset_guarded;\n     direct_clears_again := proxy_direct_clears_again;\n     direct_cancels_retry := proxy_direct_cancels_retry; direct_resets_upstream := proxy_direct_resets_upstream;\n     put_resets_cursor := proxy_put_resets_cursor;\n     retry_checks_direct := proxy_retry_checks_direct; retry_refinalizes := proxy_retry_refinalizes;\n     timers_reset_stream := proxy_timers_reset_stream; hijack_clears_body := proxy_hijack_clears_body;\n     retry_clears_reuse := proxy_retry_clears_reuse; setupretry_clears_reuse := proxy_setupretry_clears_reuse; reason_code := proxy_reason_code |}.\n")
+	b.WriteString("Definition proxy_src : srcp :=\n  {| loop_bound := proxy_loop_bound; min_budget := proxy_min_budget; reset_guarded := proxy_reset_guarded;\n     direct_clears_again := proxy_direct_clears_again;\n     direct_cancels_retry := proxy_direct_cancels_retry; direct_resets_upstream := proxy_direct_resets_upstream;\n     put_resets_cursor := proxy_put_resets_cursor;\n     retry_checks_direct := proxy_retry_checks_direct; retry_refinalizes := proxy_retry_refinalizes;\n     timers_reset_stream := proxy_timers_reset_stream; hijack_clears_body := proxy_hijack_clears_body;\n     retry_clears_reuse := proxy_retry_clears_reuse; setupretry_clears_reuse := proxy_setupretry_clears_reuse;\n     global_lost_cas_stops := proxy_global_lost_cas_stops; reason_code := proxy_reason_code |}.\n")
 	fmt.Fprintf(&b, "Definition ProxyTokens_translator_ok := %v.\n", ok)
 	return b.String(), nil
 }
